@@ -635,7 +635,8 @@ var corpus = []string{
 	"`a *b* c`\n", "* a*\n", "**\n", "*a*", "*a", "*\n", "_*a*_", "*_a_*\n", "*a**\n", "> *a\n> b*\n", "> *>a*\n",
 	">> *>  a*\n", "\xe2", ">\xe2", "> \xe2\x80", "*\u2003a*\n", "*a\u2003*\n", "a\u2003*b*\n", "a\xe2\x80*b*\n", "",
 	"\n", "\n\n", ">", ">\n", "> \n> \n", "a\n> b\nc", "~a~~b~\n", "*a*\n*b\n", "> a\n```\n> b\n```\n", "```\n> a\n```\n",
-	"> a\n```info\nx\n", ">> a\nb\n",
+	"> a\n```info\nx\n", ">> a\nb\n", "``` `a`\n", "``` *a*", "```\n```\nx", "> ```\n> ```abc\n> x", "~a~~b~\n",
+	">\u00a0x", ">\u3000\u3000", "> \xe3\x80", "*a _b *c* d_ e*\n", "_a *b* c_ *d*\n", "`a` `b`\n", "`*a*`*b*\n",
 }
 
 func (c *ctx) longDocs() {
